@@ -105,6 +105,8 @@ enum Need {
 pub const LITS: &[&str] = &["a", "b", "c", "ab", "ba", "aa", "abc", "é", " ", "\n", "x", "bX", "A", "aB", "€", "-", "a", "b", "ab", "É", "kΩ", "🎈", "\r", "Ａb", "\u{feff}"];
 pub const BUILTIN_CHARS: &[&str] = &[
     "ANY",
+    "ANY",
+    "ANY",
     "ASCII_DIGIT",
     "ASCII_ALPHA",
     "ASCII_ALPHA_LOWER",
@@ -647,8 +649,21 @@ impl<'a> G<'a> {
             let _ = need;
             return Some(ch);
         }
-        let k = self.rng.below(8);
+        let k = self.rng.below(9);
         match k {
+            8 => {
+                // the "peek, then scan" idiom: `&first ~ (!stop ~ ANY)+` (progress made by ANY only,
+                // after a lookahead that matched a token further on)
+                let first = self.terminal_consuming();
+                let stop = Expr::Str(self.lit_nonempty());
+                let scan = Expr::Seq(Box::new(Expr::NegPred(Box::new(stop))), Box::new(Expr::Ident("ANY".into())));
+                let body = if self.rng.chance(1, 2) { Expr::RepOnce(Box::new(scan)) } else { Expr::Rep(Box::new(scan)) };
+                let e = Expr::Seq(Box::new(Expr::PosPred(Box::new(first))), Box::new(body));
+                match need {
+                    Need::Consume => None,
+                    _ => Some(if self.rng.chance(1, 3) { Expr::Seq(Box::new(e), Box::new(Expr::Ident("EOI".into()))) } else { e }),
+                }
+            }
             0 => {
                 // skipper: (!(needles) ~ ANY)*  -- only rewritten in atomic rules
                 if need != Need::Free {
